@@ -12,7 +12,7 @@
 import ast
 
 from ..loader import AnalysisError, dotted
-from ..astutil import walk_own, calls_in, norm, Defs, leaves, stmt_of, kwarg, need, returns_of, expand, const_value
+from ..astutil import P, walk_own, calls_in, norm, Defs, leaves, stmt_of, kwarg, need, returns_of, expand, const_value
 from .. import cfg as cfgmod
 from ..variants import Witness
 from .common import self_attr_stores
@@ -112,7 +112,7 @@ def rule_r2(p, res):
     inc = p.own_method("GMRFVectorModel", "increment")
     r.instance(inc)
     gi = cfgmod.build(inc.node)
-    r.check(any(any(pol and norm(t) == "not self.is_incremental" for t, pol in gi.guards(n)) for n in walk_own(inc.node) if isinstance(n, ast.Raise)), inc, inc.node,
+    r.check(any(any((not pol) and norm(t) == "self.is_incremental" for t, pol in gi.guards(n)) for n in walk_own(inc.node) if isinstance(n, ast.Raise)), inc, inc.node,
             "a model built without stored covariances must refuse to be incremented")
     # dispatch agreement (also checked from the other side in C12.R2)
     ini = p.own_method("GMRFVectorModel", "__init__")
@@ -209,10 +209,10 @@ def rule_r4(p, res):
     ok = isinstance(ns, ast.BinOp) and isinstance(ns.op, ast.Div) and norm(ns.right) == "k + new_n"
     if ok:
         terms = norm(ns.left)
-        ok = terms == "k * %s + m1 + %s.T.dot(%s) - m2" % (S, X, X)
+        ok = terms == P("k * %s + m1 + %s.T.dot(%s) - m2" % (S, X, X))
     r.check(ok, cf, cf.node, "running covariance = (k S + n m m^T + X^T X - (n + new_n) m' m'^T) / (k + new_n) with the same k (found `%s`)" % (norm(ns) if ns is not None else None),
             {"cov_update": norm(ns) if ns is not None else None})
-    r.check(norm(d.single("m1")) == "%s * %s[None, :].T.dot(%s[None, :])" % (n, m, m) and norm(d.single("m2")) == "(%s + new_n) * new_m[None, :].T.dot(new_m[None, :])" % n, cf, cf.node,
+    r.check(norm(d.single("m1")) == P("%s * %s[None, :].T.dot(%s[None, :])" % (n, m, m)) and norm(d.single("m2")) == P("(%s + new_n) * new_m[None, :].T.dot(new_m[None, :])" % n), cf, cf.node,
             "the mean outer products must be weighted by the old and the merged sample counts")
     r.check(norm(d.single("new_m")) == "_increment_multivariate_gaussian_mean(%s, %s, %s)" % (X, m, n), cf, cf.node, "the covariance update must use the updated mean of the same data")
     r.check(norm(returns_of(cf.node)[0].value) == "(new_m, new_S)", cf, cf.node, "(new mean, new covariance) must be returned")
